@@ -8,6 +8,7 @@ from pyvc.state import State
 from pyvc.ctx import unit
 from specs.common import *
 from specs.dsl import *
+from specs import native
 
 S = z3.StringSort()
 joinlines = z3.Function("joinlines", S, S)                 # " ".join(text.splitlines())
@@ -51,7 +52,9 @@ def install_strings(x, ctx):
             # assumed contract of str.replace (all occurrences, left to right, non-overlapping): when the replacement is a single space and the
             # pattern is non-empty and contains no space, the pattern no longer occurs (an occurrence could neither include an inserted space nor
             # lie inside an unreplaced stretch).  With an EMPTY replacement occurrences can re-form ("**//".replace("*/", "") == "*/"): no guarantee.
+            # A single-character pattern cannot re-form: it is gone whenever the replacement does not contain it.
             x.assume.append(AND(IMP(AND(z3.Length(a) > 0, b == z3.StringVal(" "), NOT(z3.Contains(a, z3.StringVal(" ")))), NOT(z3.Contains(t, a))),
+                                IMP(AND(z3.Length(a) == 1, NOT(z3.Contains(b, a))), NOT(z3.Contains(t, a))),
                                 IMP(AND(nolb(recv.z()), nolb(b)), nolb(t))))
             return VStr(None, t)
         if name in ("rstrip", "strip", "lstrip") and recv.py is None and args:
@@ -108,6 +111,7 @@ for _style in STYLES:
             f, dp = mk_formatter(st, style)
             text = VStr(None, fresh("text", S))
             exits = ctx.run(x, "DefaultFormatter.comment", [f, text], {}, st)
+            ctx.replayer = native.comment_replayer(style, STYLES[style], text)
             covers(ctx, exits); never_raises(ctx, exits, props=["C09"])
             for e in exits:
                 if e.kind != "return": continue
